@@ -306,7 +306,11 @@ def run(res, tier, lean, prop="C04", proof_breaks=(), build_log=""):
             impl.append(result["line"])
             meta.append((name, scn, result))
             res.bump("runs")
-    outs = lean.run(lines)
+    outs_full = lean.run(lines)
+    outs = [o.split(" # ")[0] for o in outs_full]
+    res.notes["runs_with_runOk"] = sum(1 for o in outs_full if "runOk=1" in o)
+    res.notes["runs_with_one_dispatcher"] = sum(1 for o in outs_full if "oneDispatcher=1" in o)
+    res.notes["runs_replayed"] = len(outs_full)
     bad, judged = [], []
     judges = {"C04": [judge_c04, judge_c05, judge_c04_gap], "C05": [judge_c05], "C06": [judge_c06]}[prop]
     for line, o, i, (name, scn, result) in zip(lines, outs, impl, meta):
